@@ -96,13 +96,21 @@ def gen_forest(rnd, nmodels=None, allow_m2m=True, null_measures=True):
         for r in range(len(pairs)):
             c0 = rnd.choice([None, 0, 1, 2, 5, -3, 10]) if null_measures else rnd.choice([0, 1, 2, 5, -3, 10])
             m["rows"].append([pairs[r][0], pairs[r][1], c0, rnd.choice([None, 0, 1, 2]), rnd.choice([None, "a", "a", "b", "c"]), None, None])
+    # "detail table" shape: a child whose own composite primary key CONTAINS its foreign key (order lines keyed by (order id, line
+    # number)): the join columns are then a proper subset of the child's key, and the hop still fans the parent out
+    parents = {l[1] for l in links}
+    for (c, p, ty, comp) in links:
+        if ty == "m2o" and not comp and not models[c]["composite"] and c not in parents and rnd.random() < 0.3:
+            models[c]["pk"] = ["fk_a", "id"]
     for (c, p, ty, comp) in links:
         prow = models[p]["rows"]
         pool = [(r[0], r[1]) for r in prow]
         used = set()
         for r in models[c]["rows"]:
             x = rnd.random()
-            if x < 0.12 or not pool:
+            if (x < 0.12 or not pool) and models[c].get("pk"):
+                fk = (99, "k99")              # a key column is never NULL
+            elif x < 0.12 or not pool:
                 fk = None
             elif x < 0.2:
                 fk = (99, "k99")              # dangling
@@ -128,6 +136,11 @@ def gen_forest(rnd, nmodels=None, allow_m2m=True, null_measures=True):
     return dict(models=models, links=links)
 
 
+def model_pk(m):
+    """primary key of a generated model: a column name or a list of column names"""
+    return m.get("pk") or (["id", "id2"] if m["composite"] else "id")
+
+
 def coq_key(k):
     if k is None:
         return "KNone"
@@ -144,7 +157,7 @@ def coq_forest(f):
             "None" if not r.get("through") else "(Some %s)" % lib.coq_string(r["through"]),
             "None" if not r.get("through_foreign_key") else "(Some %s)" % lib.coq_string(r["through_foreign_key"]),
             "None" if not r.get("related_foreign_key") else "(Some %s)" % lib.coq_string(r["related_foreign_key"])) for r in m["rels"])
-        pk = coq_key(["id", "id2"] if m["composite"] else "id")
+        pk = coq_key(model_pk(m))
         ms.append("{| pm_g := {| g_name := %s; g_pk := %s; g_rels := [%s] |}; pm_cols := JC; pm_rows := %s |}" % (
             lib.coq_string(m["name"]), pk, rels, sg.coq_rows(m["rows"])))
     return "[" + ";\n ".join(ms) + "]"
@@ -165,7 +178,7 @@ def real_layer(f, metrics_by_model, dims_by_model, extra_model_kw=None):
                  Dimension(name=dn, type=("categorical" if e == jcol("s0") else "numeric"), sql=jsql(e))) for dn, e in dims_by_model.get(m["name"], [])]
         mets = [Metric(name=mn, agg=a, sql=(jsql(e) if e else None), filters=[jsql(x, "{model}.") for x in fl] or None) for mn, a, e, fl in metrics_by_model.get(m["name"], [])]
         kw = dict((extra_model_kw or {}).get(m["name"], {}))
-        L.add_model(Model(name=m["name"], table=m["name"], primary_key=(["id", "id2"] if m["composite"] else "id"), relationships=rels, dimensions=dims, metrics=mets, **kw))
+        L.add_model(Model(name=m["name"], table=m["name"], primary_key=model_pk(m), relationships=rels, dimensions=dims, metrics=mets, **kw))
     return L
 
 
